@@ -16,21 +16,30 @@ MANIFEST = {
             'enclosing workflow and every parent task RUNNING (induction over the ancestor relation) and the '
             'start_task message sets the task RUNNING with processed=False; the runtime context is cleared; '
             'reset re-executes all items; skip marks SKIPPED, publishes publish-on-skip and follows on-skip, '
-            'else on-success, never on-complete; a succeeded task is refused by the command itself with nothing '
+            'else on-success, never on-complete, and a join execution the skip re-opens (Task.defer) goes back to '
+            'WAITING with processed=False (repo fix acd6a089); a succeeded task is refused by the command itself with nothing '
             'changed; with reset off exactly the failed items are re-executed and no item that is accepted or in '
             'progress is ever scheduled again (both true since repo fixes 494951d1 / e3353c67, regressions in '
             'corpus/C12). Three clauses are FALSE of the code at full strength and are kept as _full_fails + '
             '_partial with engine replays: publish-on-error variables survive a successful rerun; routes taken '
             'by the failed attempt stay taken (on-complete fires twice) - both known findings; the engine by '
             'itself (without the REST guard) reruns non-ERROR tasks that are not SUCCESS (CANCELLED: by design).',
-    'note': 'The global clause "finishes as if the task had produced its new result the first time" is decided '
+    'note': 'The retry-budget monitor (a rerun task with a retry policy gets its full budget again) reads on a join only '
+            'while the preconditions of the join hold: a join failed BY ITS INBOUND TASKS that is rerun directly is run by '
+            'the engine without its preconditions and fails again at the first precondition re-check of its retry '
+            '(RetryPolicy retries a join through WAITING + _refresh_task_state) - no run exists in which it "produced its '
+            'new result the first time" (corpus/C12/join_retry_unsatisfied_preconditions.json; formerly a false alarm of '
+            'the failing-input search). 20% of the cases are a focus population: a join with a retry policy, failed by its own '
+            'action or by its inbound tasks, rerun over 3-5 rounds with failing / mixed / ok attempts. '
+            'The global clause "finishes as if the task had produced its new result the first time" is decided '
             'by the reference-run monitor (sampled programs/schedules), not by a theorem: only its task-local '
             'part (published variables, routes) is proved. Expressions are literals or task().result.',
 }
 RULE = ('stream rerun: generated programs (1-3 nested workflows, 2-4 tasks each + dedicated on-skip/on-complete/'
         'on-error targets; kinds plain / with-items (2-4 items, optional concurrency) / retry / sub-workflow; '
-        'join all where >=2 inbound) x first-run failures x a plan of 1-3 rounds (rerun reset on/off or skip of an '
-        'ERROR task chosen by class cause/parent/failed-join; new attempt ok / fail / mixed) x schedule policy; '
+        'join all where >=2 inbound) x first-run failures x a plan of 1-4 rounds (rerun reset on/off or skip of an '
+        'ERROR task chosen by class cause/parent/failed-join; new attempt ok / fail / mixed) x schedule policy; 20% focus '
+        'cases: a join task with retry failing by its own action or its inbound tasks, 3-5 rounds preferring that task; '
         'non-trivial = at least one rerun/skip command was applied to an ERROR task; distinct = distinct '
         '(yaml, failures, plan, seed)')
 TRUSTED = ['translate/states.py (AST read of states.py: workflow transition table used by canRun)',
